@@ -318,6 +318,60 @@ def few_cpus_family(run, binary):
         shutil.rmtree(base, ignore_errors=True)
 
 
+def readdir_fault_family(run, binary):
+    """A fault INSIDE the reading of a directory (the n-th getdents64 call of the process fails: EINTR, EIO - injected with strace), i.e.
+    after some of the folder's entries have already been reported.  "A read error on any directory surfaces as an error instead of a
+    silently shorter listing", and every entry is listed exactly once: a run that reports success must have produced the mirror - nothing
+    missing (the rest of the folder dropped) and nothing planned twice (the folder read again from the start)."""
+    import shutil, tempfile, re
+    import e2e
+    if not shutil.which('strace'):
+        run.count('readdir-fault:strace-missing(skipped)')
+        return
+    T = 1_700_000_000_000_000_000
+    base = tempfile.mkdtemp(prefix='c17rd_', dir=vlib.CACHE)
+    try:
+        probe = e2e.run_cli(binary, ['--version'], prefix=['strace', '-f', '-o', '/dev/null', '-e', 'trace=getdents64'], timeout=30)
+        if probe['exit'] != 0:
+            run.count('readdir-fault:strace-unusable(skipped)')
+            return
+        for errno_name in ('EINTR', 'EIO'):
+            for when in (1, 2, 3, 4, 6):
+                root = os.path.join(base, '%s%d' % (errno_name, when))
+                os.makedirs(root)
+                src = {'': {'k': 'dir'}}
+                for i in range(3):
+                    src['d%d' % i] = {'k': 'dir'}
+                    src['d%d/sub' % i] = {'k': 'dir'}
+                    for j in range(4):
+                        src['d%d/f%d' % (i, j)] = {'k': 'file', 'data': b'x%d' % j, 'mtime_ns': T + j}
+                    src['d%d/sub/g' % i] = {'k': 'file', 'data': b'g', 'mtime_ns': T}
+                e2e.build_tree(os.path.join(root, 's'), src)
+                r = e2e.run_cli(binary, [os.path.join(root, 's') + '/', os.path.join(root, 'd') + '/', '--dry-run'], timeout=60,
+                                prefix=['strace', '-f', '-o', '/dev/null', '-e', 'trace=getdents64', '-e', 'inject=getdents64:error=%s:when=%d' % (errno_name, when)])
+                text = r['stdout'] + r['stderr']
+                would = [l.strip() for l in text.splitlines() if l.strip().startswith('Would ')]
+                run.count('readdir-fault:%s:exit:%s' % (errno_name, r['exit']))
+                run.case(('readdir-fault', errno_name, when), True, sample={'errno': errno_name, 'nth_getdents64': when, 'exit': r['exit'], 'would_lines': len(would)})
+                run.traces_validated += 1
+                bad = None
+                if r['timed_out']:
+                    bad = 'the walk did not finish'
+                elif r['exit'] == 0:
+                    per_entry = [l for l in would if re.match(r"Would (copy|create) ", l) and "'" in l]
+                    if len(per_entry) != len(set(per_entry)):
+                        dup = sorted(set(l for l in per_entry if per_entry.count(l) > 1))[:2]
+                        bad = 'the run reported success and planned entries twice (a folder was read again after the fault): %s' % dup
+                    elif len(per_entry) and len(per_entry) < len(src) - 1:
+                        bad = 'the run reported success with %d of %d entries planned: the listing is silently short' % (len(per_entry), len(src) - 1)
+                if bad:
+                    run.fail('C17 (the %d-th getdents64 call fails with %s): %s' % (when, errno_name, bad),
+                             {'kind': 'readdir-fault', 'errno': errno_name, 'when': when, 'exit': r['exit'], 'text': text[-500:]})
+                shutil.rmtree(root, ignore_errors=True)
+    finally:
+        shutil.rmtree(base, ignore_errors=True)
+
+
 def spawn_failure_family(run, binary):
     """A thread that cannot be started (pthread_create fails with EAGAIN: the process is at its thread or memory limit) at any of the
     thread creations of a local sync - the two doer threads, the walker threads of either side, the progress thread.  The property's
@@ -378,6 +432,7 @@ def check(run):
     spawn_failure_family(run, binary)
     unreadable_subfolder_family(run, binary)
     few_cpus_family(run, binary)
+    readdir_fault_family(run, binary)
     return run.finish(search=None)     # every case already ran the property oracle on the implementation
 
 
